@@ -940,6 +940,10 @@ class Engine:
             return getslice(self, v, lo, hi, st)
         return getitem(self, v, self.eval(node.slice, env))
 
+    def eval_Slice(self, node, env):
+        # a slice inside a tuple index (matrix[:, cols]): a python slice of the evaluated bounds, for the object's own hook
+        return slice(*[self.eval(x, env) if x is not None else None for x in (node.lower, node.upper, node.step)])
+
     def eval_Starred(self, node, env):
         raise EngineError('starred expression')
 
